@@ -316,7 +316,7 @@ def run(prop, tier):
                             got_t, got_c = disp.get(("thread", 1, g["type"]), 0), disp.get(("cpu", 2, g["type"]), 0)
                             other = disp.get(("cpu", 1, g["type"]), 0)
                             if other not in (0, CPU_DEFAULT.get(g["type"], 0)):
-                                got_c = ("the row of the CPU nobody runs on shows %d" % other)
+                                got_c = "%s (and the row of the CPU nobody runs on: %d)" % (got_c, other)
                             if got_t != want_t or got_c != want_c:
                                 ctx.violation("model %s: region %s (%s) open, thread %s: thread row type %d shows %d (expected %d), CPU row shows %s (expected %d)" % (
                                     model, mcv, g["label"], st, g["type"], got_t, want_t, got_c, want_c),
